@@ -46,12 +46,13 @@ Inductive verr :=
 | ENoMandChoice    (* LY_VCODE_NOMAND_CHOIC, app-tag missing-choice *)
 | ENoMin           (* LY_VCODE_NOMIN, app-tag too-few-elements *)
 | ENoMax           (* LY_VCODE_NOMAX, app-tag too-many-elements *)
-| ENoUniq.         (* LY_VCODE_NOUNIQ, app-tag data-not-unique *)
+| ENoUniq          (* LY_VCODE_NOUNIQ, app-tag data-not-unique *)
+| EState.          (* LY_VCODE_UNEXPNODE "state": a config false node when only configuration is validated (LYD_VALIDATE_NO_STATE) *)
 
 Definition verr_eqb (a b : verr) : bool :=
   match a, b with
   | EFuel, EFuel | EType, EType | EKey, EKey | EDup, EDup | EDupCase, EDupCase | ENoMand, ENoMand
-  | ENoMandChoice, ENoMandChoice | ENoMin, ENoMin | ENoMax, ENoMax | ENoUniq, ENoUniq => true
+  | ENoMandChoice, ENoMandChoice | ENoMin, ENoMin | ENoMax, ENoMax | ENoUniq, ENoUniq | EState, EState => true
   | _, _ => false
   end.
 
@@ -496,6 +497,30 @@ Section Impl.
     end.
 
   (* --------------------------------------------------------------------------------------- *)
+  (* LYD_VALIDATE_NO_STATE: lyd_validate_final_r reports LY_VCODE_UNEXPNODE "state" for a config false node in its
+     per-node loop (before lyd_validate_siblings_schema_r of the level, after the levels above); the `continue` on
+     LYS_CONFIG_R schema nodes in lyd_validate_siblings_schema_r and in lyd_new_implicit (LYD_IMPLICIT_NO_STATE) is
+     the schema of RfcValid.cfg_view: these functions are run on cfg_view vs (impl_validate_config below)          *)
+  Definition state_chk (n : dnode) : vres := chk (si_config (info vs (d_sid n))) EState.
+
+  Fixpoint final_node_ns (l : list stree) (n : dnode) {struct n} : vres :=
+    match n with
+    | DN s _ _ _ ch =>
+        let l' := st_children l s in
+        vand (vall state_chk ch) (vand (schema_r ch l') (visit (final_node_ns l') ch (flat_map (npv ch) l')))
+    end.
+
+  Definition final_top_ns (f : forest) : vres :=
+    let l := vs_tree vs in
+    vand (vall state_chk f) (vand (schema_r f l) (visit (final_node_ns l) f (flat_map (npv f) l))).
+
+  Definition impl_validate_ns (f : vforest) : vres :=
+    match vnew (S (vfsize f)) (vs_tree vs) f with
+    | RErr e => VErr e
+    | ROk f' => final_top_ns (map erase f')
+    end.
+
+  (* --------------------------------------------------------------------------------------- *)
   (* LYD_VALIDATE_MULTI_ERROR: LY_VAL_ERR_GOTO records LY_EVALID and goes on                   *)
   (* --------------------------------------------------------------------------------------- *)
   (* the same code with every "return on a validation error" replaced by "remember it and continue": the functions
@@ -692,7 +717,14 @@ Section Impl.
   (* lyd_parse_data(..., validation): the parser hands over a tree in which every node is flagged new *)
   Definition impl_parse_validate (f : forest) : vres :=
     vand (vall pchk f) (impl_validate (map mark_new f)).
+  Definition impl_parse_validate_ns (f : forest) : vres :=
+    vand (vall pchk f) (impl_validate_ns (map mark_new f)).
 End Impl.
+
+(* parse + validate with LYD_VALIDATE_NO_STATE: the parser and lyd_validate_new read only the kinds, keys, config flags
+   and the schema tree, which cfg_view keeps *)
+Definition impl_validate_config (vs : vschema) (g : vforest) : vres := impl_validate_ns (cfg_view vs) g.
+Definition impl_parse_validate_config (vs : vschema) ty (f : forest) : vres := impl_parse_validate_ns (cfg_view vs) ty f.
 
 (* ------------------------------------------------------------------------------------------- *)
 (* the RFC rule (group) an error class stands for, and what is reported for it                   *)
@@ -709,10 +741,18 @@ Definition class_ok (ty : sid -> bytes -> bool) (vs : vschema) (f : forest) (e :
   | ENoMin => rfc_min vs f
   | ENoMax => rfc_max vs f
   | ENoUniq => rfc_unique vs f
+  | EState => true          (* only with LYD_VALIDATE_NO_STATE: class_ok_config *)
+  end.
+
+(* with LYD_VALIDATE_NO_STATE *)
+Definition class_ok_config (ty : sid -> bytes -> bool) (vs : vschema) (f : forest) (e : verr) : bool :=
+  match e with
+  | EState => rfc_nostate (cfg_view vs) f
+  | _ => class_ok ty (cfg_view vs) f e
   end.
 
 Definition all_classes : list verr :=
-  [EFuel; EType; EKey; EDup; EDupCase; ENoMand; ENoMandChoice; ENoMin; ENoMax; ENoUniq].
+  [EFuel; EType; EKey; EDup; EDupCase; ENoMand; ENoMandChoice; ENoMin; ENoMax; ENoUniq; EState].
 
 (* (LY_ERR, LY_VECODE, error-app-tag) of a validation error: LY_EVALID = 7, LYVE_DATA = 9 (Gen/Consts.v: checked
    against the headers by the correspondence run, which compares rc / vecode / app-tag of every rejected case) *)
